@@ -41,6 +41,7 @@ def retarget(p, a, b, n, G):
             mods.append(__import__(name, fromlist=["x"]))
         except Exception:
             pass
+    o = SECP_VALUES()          # the library's own values, before anything is re-targeted
     new = {"SECP256K1_P": p, "SECP256K1_A": a, "SECP256K1_B": b, "SECP256K1_N": n,
            "SECP256K1_Gx": G[0], "SECP256K1_Gy": G[1], "SECP256K1_G_n": n}
     saved_consts = []
@@ -63,12 +64,70 @@ def retarget(p, a, b, n, G):
             fn = getattr(ec, f)
             saved_defaults.append((fn, fn.__defaults__))
             fn.__defaults__ = (n, G)
+        # BY VALUE, everywhere in the library: a refactoring may hoist the curve constants into other names (`_G = (Gx, Gy)`,
+        # `_SQRT_EXP = (P + 1) // 4`, a helper with `p=SECP256K1_P` as default) - every module global and every function
+        # default of a loaded bits.* module that IS one of secp256k1's large constants (or a tuple / list of them, or one of a
+        # few derived exponents) is re-targeted too, so the small-curve runs keep exercising the code as written
+        import sys
+        import types
+        vmap = {o["P"]: p, o["N"]: n, o["Gx"]: G[0], o["Gy"]: G[1],
+                (o["P"] + 1) // 4: (p + 1) // 4, (o["P"] - 1) // 2: (p - 1) // 2, o["P"] - 2: p - 2, o["P"] - 1: p - 1,
+                o["N"] - 2: n - 2, o["N"] - 1: n - 1, o["N"] // 2: n // 2}
+
+        def conv(v):
+            """the re-targeted value, or the value itself when nothing in it is a curve constant"""
+            if isinstance(v, bool):
+                return v
+            if isinstance(v, int):
+                return vmap.get(v, v)
+            if isinstance(v, (tuple, list)) and 0 < len(v) <= 8 and all(isinstance(x, (int, tuple, type(None))) for x in v):
+                w = [conv(x) for x in v]
+                if any(a_ is not b_ and a_ != b_ for a_, b_ in zip(w, v)):
+                    return type(v)(w)
+            return v
+        saved_kw = []
+        for mname, m in list(sys.modules.items()):
+            if not (mname == "bits" or mname.startswith("bits.")) or m is None:
+                continue
+            for k, v in list(vars(m).items()):
+                if k.startswith("__"):
+                    continue
+                if isinstance(v, types.FunctionType) and getattr(v, "__module__", "").startswith("bits"):
+                    if v.__defaults__:
+                        nd = tuple(conv(x) for x in v.__defaults__)
+                        if nd != v.__defaults__:
+                            saved_defaults.append((v, v.__defaults__))
+                            v.__defaults__ = nd
+                    if v.__kwdefaults__:
+                        nk = {kk: conv(x) for kk, x in v.__kwdefaults__.items()}
+                        if nk != v.__kwdefaults__:
+                            saved_kw.append((v, dict(v.__kwdefaults__)))
+                            v.__kwdefaults__ = nk
+                elif isinstance(v, (int, tuple, list)) and not isinstance(v, bool):
+                    nv = conv(v)
+                    if nv is not v and nv != v:
+                        saved_consts.append((m, k, v))
+                        setattr(m, k, nv)
         yield
     finally:
-        for fn, d in saved_defaults:
+        for fn, d in reversed(saved_defaults):
             fn.__defaults__ = d
-        for m, c, v in saved_consts:
+        for fn, d in locals().get("saved_kw", []):
+            fn.__kwdefaults__ = d
+        for m, c, v in reversed(saved_consts):
             setattr(m, c, v)
+
+
+_SECP_VALUES = {}
+
+
+def SECP_VALUES():
+    """secp256k1's own constants, read once from the library BEFORE any re-targeting"""
+    if not _SECP_VALUES:
+        import bits.ecmath as ec
+        _SECP_VALUES.update(P=ec.SECP256K1_P, N=ec.SECP256K1_N, Gx=ec.SECP256K1_Gx, Gy=ec.SECP256K1_Gy)
+        assert _SECP_VALUES["P"] > 2 ** 200 and _SECP_VALUES["N"] > 2 ** 200, "library constants already re-targeted"
+    return _SECP_VALUES
 
 
 class DrawsExhausted(Exception):
